@@ -13,6 +13,9 @@ def main():
     for name, c in REGISTRY.by_name.items():
         if pat not in name or c.trusted:
             continue
+        if c.mode == 'bounded':
+            print(f"{name}: bounded (native execution only, not verified)")
+            continue
         t0 = time.time()
         res, ctx = verify_function(c)
         n = len(res.obligations)
